@@ -101,7 +101,9 @@ func (o *c01Obs) probeHealth(ins []*c01Insert) (ok, total int, healthy bool) {
 		}
 	}
 	for _, p := range o.probes {
-		if p.atMs > o.endMs-c01ProbeLatencyMs {
+		// judged window: the 20 s before the last moment a probe could still arrive in time; the
+		// first seconds after healing are excluded (replicas may still be marked dead by the agent)
+		if p.atMs > o.endMs-c01ProbeLatencyMs || p.atMs < o.endMs-c01ProbeLatencyMs-20000 {
 			continue
 		}
 		total++
